@@ -361,9 +361,37 @@ pub fn generate(s: &mut Session, thorough: bool) -> bool {
     let mut rng = Rng::new(s.seed);
     let scale = if thorough { 20 } else { 1 };
     // (i) track fit on the degenerate families
-    for fam in 0..10u64 {
+    for fam in 0..12u64 {
         for _ in 0..400 * scale {
-            let pts = degenerate_points(&mut rng, fam);
+            let pts = if fam == 10 {
+                // >= 21 points on an arc whose radii form chains of near-ties (steps of 3e-10 .. 3e-8 m):
+                // an ordering of the points by radius must stay a total order (seed C14-9)
+                let n = rng.range(21, 45) as usize;
+                let step = *rng.pick(&[3e-10, 1e-9, 3e-9, 1e-8, 3e-8]);
+                let r0 = 0.11 + 0.05 * rng.f64_unit();
+                let z0 = rng.f64_unit() - 0.5;
+                (0..n)
+                    .map(|k| {
+                        let chain = (k % 7) as f64 * step + (k / 7) as f64 * 0.004;
+                        sp(r0 + chain, -1.0 + 0.05 * k as f64 + 0.01 * rng.f64_unit(), z0 + 0.003 * k as f64 * if rng.below(5) == 0 { -1.0 } else { 1.0 })
+                    })
+                    .collect()
+            } else if fam == 11 {
+                // a track that leaves the drift volume in z (slightly around the volume, as the property
+                // quantifies): |z| up to 1.3 m, either sign (seed C14-10 indexed z slabs)
+                let n = rng.range(13, 30) as usize;
+                let sgn = if rng.bool() { 1.0 } else { -1.0 };
+                let zend = 1.14 + 0.16 * rng.f64_unit();
+                let phi0 = (rng.f64_unit() * 2.0 - 1.0) * PI;
+                (0..n)
+                    .map(|k| {
+                        let f = k as f64 / (n - 1) as f64;
+                        sp(0.11 + 0.07 * f, phi0 + 0.3 * f, sgn * (zend - 0.2 * (1.0 - f)))
+                    })
+                    .collect()
+            } else {
+                degenerate_points(&mut rng, fam)
+            };
             let (imp, why) = run_fit(&pts);
             let gen: &'static str = match fam {
                 0 => "fit-ray-collinear",
@@ -375,6 +403,8 @@ pub fn generate(s: &mut Session, thorough: bool) -> bool {
                 6 => "fit-dyadic",
                 7 => "fit-helix-pitch",
                 8 => "fit-three-points",
+                10 => "fit-near-tie-radii",
+                11 => "fit-beyond-half-length",
                 _ => "fit-random",
             };
             s.push_oracle(gen, fit_request(&pts, &imp), imp, why);
